@@ -176,6 +176,8 @@ def random_icpt(rng, n):
         steps.append({"a": "read", "n": w % M, "ts": (w // 3) % 100000, "b": False})
         if style in ("dups", "mixed") and rng.random() < 0.05:
             steps.append({"a": "read", "n": w % M, "ts": (w // 3) % 100000, "b": False})
+        if rng.random() < 0.03:          # a read whose wrapped reader fails: passed up, nothing buffered
+            steps.append({"a": "readfail", "n": (pos + rng.choice([0, 1, 5])) % M, "ts": 7, "b": False})
         if rng.random() < 0.004:
             steps.append({"a": "unbind", "n": 0, "ts": 0, "b": False})
     return {"level": "icpt", "min": 50, "tsbase": rng.choice(TSBASES), "steps": steps}
